@@ -53,7 +53,8 @@ def run(ck: vlib.Check):
     ck.extra["types_exercised"] = {k: len(v) for k, v in types_seen.items()}
     ck.extra["outcomes"] = outcomes
     if drv_ok:
-        R.correspond(ck, cases, impl, "authored scenario -> saved bytes: implementation vs extracted pipeline model")
+        R.correspond(ck, cases, impl, "authored scenario -> saved bytes: implementation vs extracted pipeline model",
+                     judge=lambda b, s, out: R.c04_oracle(b, s, out))
     ck.sample({"case": cases[0][0], "ops": [o[0] for o in cases[0][2]["ops"]], "pool": {k: len(v) for k, v in cases[0][2]["pool"].items()}})
     ck.sample({"case": cases[-1][0], "spec": json.loads(json.dumps(cases[-1][2]))["ops"][0][0]})
 
@@ -67,5 +68,9 @@ def replay(path: str) -> int:
         bad = R.c04_oracle(base, rp["spec"], bytes(r[1])) if r[0] == 1 else None
         print("still failing: " + bad if bad else "no longer failing")
         return 1 if bad else 0
+    if rp.get("kind") == "raised-on-representable":
+        r = A.run_impl(bytes.fromhex(rp["base_hex"]), rp["spec"])
+        print("still failing: the call raises" if r[0] == 0 else "no longer failing")
+        return 1 if r[0] == 0 else 0
     print(json.dumps(rp, indent=1)[:3000])
     return 1
